@@ -509,6 +509,30 @@ def emu (fuel : Nat) (P : Prog) : Obs :=
       | .typeErr => .stuck 2)
    | _ => .normal⟩
 
+/-- the goroutine function is entered `d0` JS frames deeper (a recursion of `d0` calls without defer
+    before the defer/panic/recover pattern). The reference semantics has no notion of depth. -/
+def emuAt (fuel d0 : Nat) (P : Prog) : Obs :=
+  let (s, c) := eFn fuel P 0 0 0 (2 + d0) JS.init
+  ⟨s.trace.reverse,
+   match c with
+   | .oof => .oof
+   | .throw e =>
+     if s.exit then .goexit else
+     (match e with
+      | .goErr v => .panic v
+      | .jsErr v => .panic v
+      | .null => .stuck 1
+      | .typeErr => .stuck 2)
+   | _ => .normal⟩
+
+/-- ASSUMPTION of `getStackDepth` made explicit: the number of lines of `new Error().stack` taken with
+    `d` JS frames on the stack when V8 keeps at most `limit` frames (`Error.stackTraceLimit`;
+    `none` = Infinity): one header line plus min(d, limit) frame lines. -/
+def observedLines (limit : Option Nat) (d : Nat) : Nat :=
+  match limit with
+  | none => d + 1
+  | some l => min d l + 1
+
 /-- the global emulation state left behind: (`$stackDepthOffset`, `$panicStackDepth`, lengths of
     `panicStack` and `deferStack`) -/
 def emuState (fuel : Nat) (P : Prog) : Int × Option Int × Nat × Nat :=
